@@ -45,6 +45,7 @@ func Regist(s *Stream) {
 	if s == oldSI { // 如果是同一个源
 		return
 	}
+	verifPoint("regist.loaded", s)
 
 	// 设置新流
 	streams.Store(s.path, s)
@@ -102,6 +103,7 @@ func GetOrCreate(path string) *Stream {
 	// 检查路由
 	path = utils.CanonicalPath(path)
 	r := route.Match(path)
+	verifPoint("getorcreate.missed", path)
 	if r != nil {
 		var s *Stream
 		var err error
